@@ -1081,6 +1081,27 @@ fn e8(out: &mut Out, os: &[u32], full: bool, rng: &mut Rng) {
     }
 }
 
+/// E8b: every key twice, over 40..600 distinct keys (a key index that finds only the first candidate bucket of a hash
+/// loses the second occurrence of a key whenever another key shares its control tag: about one key in 128 per neighbour).
+fn e8b(out: &mut Out, os: &[u32], full: bool) {
+    let sizes: &[usize] = if full { &[40, 150, 300, 600, 1000] } else { &[40, 300, 600] };
+    for &n in sizes {
+        let mut s = String::from("{");
+        for round in 0..2 {
+            for i in 0..n {
+                if round + i > 0 {
+                    s.push(',');
+                }
+                s.push_str(&format!("\"key{}_{}\":{}", i % 7, i, round * n + i));
+            }
+        }
+        s.push('}');
+        for &o in os {
+            out.case_str(&text_case(o, &s));
+        }
+    }
+}
+
 /// E9: aliasing.  (a) a high-surrogate escape followed by a second escape at and around every
 /// multiple of 0x400 (all 65,536 second escapes when `full`); (b) characters that coincide with a
 /// character of the document in their low 7, 8 or 16 bits (or differ in one high bit), put in
@@ -1236,6 +1257,30 @@ fn e13(out: &mut Out, os: &[u32], full: bool) {
     }
 }
 
+/// E14: arrays of 7..20 items (beyond any inline capacity of a traversal stack or item buffer) in which one or two
+/// items -- first, second, middle, last but one, last -- are non-empty containers: the order of the fragments after
+/// them is where a traversal that treats long arrays specially would differ.
+fn e14(out: &mut Out, os: &[u32]) {
+    let nested = ["[1,[2]]", "{\"a\":{\"b\":[1]}}", "[[]]", "{\"k\":1,\"k\":[2,3]}"];
+    for n in [7usize, 8, 9, 10, 16, 17, 20] {
+        for pos in [0usize, 1, n / 2, n - 2, n - 1] {
+            for (ni, nd) in nested.iter().enumerate() {
+                let one: Vec<String> = (0..n).map(|i| if i == pos { nd.to_string() } else { i.to_string() }).collect();
+                let doc = format!("[{}]", one.join(","));
+                for &o in os {
+                    out.case_str(&text_case(o, &doc));
+                }
+                if ni < 2 {
+                    let two: Vec<String> =
+                        (0..n).map(|i| if i == pos || i == (pos + 1) % n { nested[(ni + i) % 4].to_string() } else { "null".to_string() }).collect();
+                    out.case_str(&text_case(0, &format!("{{\"w\":[{}],\"z\":0}}", two.join(" , "))));
+                    out.case_str(&bytes_case(0, format!("[{}]", two.join(",")).as_bytes()));
+                }
+            }
+        }
+    }
+}
+
 /// The shared suite.  `os` = option records to exercise.
 pub fn suite(args: &Args, out: &mut Out, os: &[u32], weight: usize) {
     let mut rng = Rng::new(args.seed);
@@ -1264,11 +1309,13 @@ pub fn suite(args: &Args, out: &mut Out, os: &[u32], weight: usize) {
     };
     e7(out, os, n7, &mut rng);
     e8(out, os, full, &mut rng);
+    e8b(out, os, full);
     e9(out, os, full && weight == 2);
     e10(out, os, full);
     e11(out, os, full);
     e12(out, os);
     e13(out, os, full);
+    e14(out, os);
 }
 
 pub fn generate_c01(args: &Args, out: &mut Out) {
